@@ -22,6 +22,8 @@ inductive Beh where
   | raisesHttp (status : Nat)           -- raises an HTTPError
   | raisesStatus (status : Nat)         -- raises an HTTPStatus
   | raisesOther                         -- raises anything else
+  | draftRaisesHttp (text data media : Option Nat) (status : Nat)    -- assigns text / data / media, THEN raises an HTTPError
+  | draftRaisesStatus (text data media : Option Nat) (status : Nat)  -- assigns text / data / media, THEN raises an HTTPStatus
   | defaultException                    -- `_python_error_handler`: compose HTTPInternalServerError
   | defaultHttp                         -- `_http_error_handler`: compose the raised HTTPError
   | defaultStatus                       -- `_http_status_handler`: compose the raised HTTPStatus
@@ -50,9 +52,23 @@ def handle (reg : Reg) (beh : Handler → Beh) (mro : List Cls) (raisedStatus : 
     | .raisesHttp st => some (composeError r st)
     | .raisesStatus st => some (composeStatus r st)
     | .raisesOther => none
+    -- `except HTTPError as error: resp.text = resp.data = resp.media = None; _compose_error_response` (after fix 07d5278)
+    | .draftRaisesHttp t d m st => some (composeError (reset { r with text := t, data := d, media := m }) st)
+    | .draftRaisesStatus t d m st => some (composeStatus (reset { r with text := t, data := d, media := m }) st)
     | .defaultException => some (composeError r 500)
     | .defaultHttp => some (composeError r raisedStatus)
     | .defaultStatus => some (composeStatus r raisedStatus)
+
+/-- the pinned `_handle_exception` (before fix 07d5278): what the handler assigned before raising stays on the response -/
+def handlePinned (reg : Reg) (beh : Handler → Beh) (mro : List Cls) (raisedStatus : Nat) (r : Resp) : Option Resp :=
+  let r := reset r
+  match find reg mro with
+  | none => none
+  | some h =>
+    match beh h with
+    | .draftRaisesHttp t d m st => some (composeError { r with text := t, data := d, media := m } st)
+    | .draftRaisesStatus t d m st => some (composeStatus { r with text := t, data := d, media := m } st)
+    | _ => handle reg beh mro raisedStatus r
 
 /-- `Response.render_body`: text, else data, else media -/
 def body (r : Resp) : Option Nat := r.text <|> r.data <|> r.media
